@@ -7,7 +7,8 @@
 (* on its own: Begin/End alternate (pc of the thread), sequence numbers    *)
 (* increase by one, and every End delivers exactly the result the same     *)
 (* call delivers when run alone.  A "Race" event (ThreadSanitizer report)  *)
-(* is never an action of the specification.                                *)
+(* is never an action of the specification.  Logs of several processes     *)
+(* (cold-start repetitions) are concatenated with "Reset" events.          *)
 (***************************************************************************)
 EXTENDS Integers, Sequences, TLC, Json, IOUtils
 Tr == ndJsonDeserialize(IOEnv.TRACE)
@@ -19,7 +20,7 @@ Key(ev) == <<ev.api, ev.input>>
 Ref(k) == {i \in 1..Len(alone) : alone[i][1] = k}
 Init == l = 1 /\ pc = "idle" /\ seq = 0 /\ alone = <<>>
 Fails(ev) ==
-  CASE ev.e = "Alone" -> {}
+  CASE ev.e \in {"Alone", "Reset"} -> {}
     [] ev.e = "Race" -> {<<"C17", "data race reported between concurrent calls">>}
     [] ev.e = "Begin" -> (IF pc = "idle" /\ ev.seq = seq + 1 THEN {} ELSE {<<"C17", "H:thread log out of order">>})
     [] ev.e = "End" ->
@@ -31,9 +32,11 @@ Fails(ev) ==
 Next == /\ l <= NT
         /\ LET ev == Tr[l] IN
            /\ \A x \in Fails(ev) : PrintT(<<"REJECT", l, x[1], x[2]>>)
-           /\ pc' = IF ev.e = "Begin" THEN "busy" ELSE IF ev.e = "End" THEN "idle" ELSE pc
-           /\ seq' = IF ev.e \in {"Begin", "End"} THEN ev.seq ELSE seq
-           /\ alone' = IF ev.e = "Alone" THEN Append(alone, <<Key(ev), Res(ev)>>) ELSE alone
+           /\ pc' = IF ev.e = "Begin" THEN "busy" ELSE IF ev.e \in {"End", "Reset"} THEN "idle" ELSE pc
+           /\ seq' = IF ev.e \in {"Begin", "End"} THEN ev.seq ELSE IF ev.e = "Reset" THEN 0 ELSE seq
+           \* "Reset" starts the log of another process: its own sequential reference follows
+           /\ alone' = IF ev.e = "Alone" THEN Append(alone, <<Key(ev), Res(ev)>>)
+                       ELSE IF ev.e = "Reset" THEN <<>> ELSE alone
         /\ l' = l + 1
 Spec == Init /\ [][Next]_vars
 =============================================================================
